@@ -32,7 +32,7 @@ def bounds(tier):
 
 def cases(tier, seed):
     out = []
-    n = 40 if tier == 'quick' else 250
+    n = 40 if tier == 'quick' else 800
     for i, c in enumerate(designs.expr_cases(n, seed + 5, n=5, maxw=4)):
         c['n'] = 3 + i % (7 if tier == 'quick' else 11)
         out.append(dict(c, k='timing'))
